@@ -91,7 +91,9 @@ def env : Env := Shroud.Gen.DeclTables.defaultEnv
 def handleTok (args : List String) : String :=
   " ".intercalate (args.map (fun a => (reclass (decTok a)).typ.name))
 
-def handleParse (args : List String) : String :=
+def nenv : Env := Shroud.Gen.DeclTables.nestedEnv
+
+def handleParseE (env : Env) (args : List String) : String :=
   let ts := (args.filter (· ≠ "")).map (fun a => reclass (decTok a))
   match parse env ts with
   | .ok d => "ok " ++ serDecl d ++ " " ++ encStr (genDecl d) ++ " " ++ optTxt (genArg env false d) ++ " "
@@ -100,6 +102,11 @@ def handleParse (args : List String) : String :=
   | .crash e => "crash " ++ e
   | .fuel => "fuel"
   | .unmodelled w => "unmodelled " ++ w
+
+def handleParse (args : List String) : String := handleParseE env args
+/-- `parse2`: the same in the nested-namespace environment -/
+def handleParse2 (args : List String) : String := handleParseE nenv args
+
 
 /-- `toks <token>*` -> token-level renderings of the parsed declaration:
     `ok <gen_decl toks> | <gen_arg_as_cxx toks> | <gen_arg_as_c toks>` -/
@@ -111,7 +118,7 @@ def handleToks (args : List String) : String :=
 
 /-- `meaning <token>*` -> reference C++ meaning of the token list and what Shroud's parse denotes:
     `M <name|~> <valid> <type> | D <name|~> <type>`; `M none` / `D none` when undefined -/
-def handleMeaning (args : List String) : String :=
+def handleMeaningE (env : Env) (args : List String) : String :=
   let ts := (args.filter (· ≠ "")).map (fun a => reclass (decTok a))
   let m := match Shroud.Cxx.cxxMeaning env ts with
     | some (n, t) => "M " ++ (match n with | some x => encStr x | none => "~") ++ " " ++ b01 t.valid ++ " " ++ encStr t.text
@@ -122,6 +129,9 @@ def handleMeaning (args : List String) : String :=
         | none => "D none")
     | _ => "D not-ok"
   m ++ " | " ++ d
+
+def handleMeaning (args : List String) : String := handleMeaningE env args
+def handleMeaning2 (args : List String) : String := handleMeaningE nenv args
 
 /-- `fund <specifier>*` -> canonical C++ fundamental type of a specifier list, and the C++ type of the
     typemap `get_canonical_typemap` selects: `<fundName|none> | <cxx_type|none|reject>` -/
